@@ -73,6 +73,18 @@ func c07Scenarios(thorough bool) []ConcScenario {
 		uh.Plans = append(uh.Plans, pl)
 	}
 	out = append(out, uh)
+	// ... and behind web.EnrichContext as in main.go, both clients presenting the SAME web session cookie (the
+	// session of a web login: a shared cookie jar, a portal in front) from different addresses: the identity a request is
+	// given is its own
+	sh := ConcScenario{Name: "two-ws+legacy-real-tokens-one-session-cookie", Deviation: true, RoundRobin: true, RealCookie: true, Enrich: true,
+		Gw: GwCfg{TokenAuth: true, HostSelection: "roundrobin", Hosts: []string{"{{ preferred_username }}-pc.example:3389"}, VerifyIP: true}}
+	for i, u := range []string{"alice", "bob"} {
+		pl := c07Plan([]string{"ws", "legacy"}[i], strings.ToUpper(u[:1]), i+1, "drop")
+		pl.User, pl.Host = u, u+"-pc.example:3389"
+		pl.SessionCookie = "shared"
+		sh.Plans = append(sh.Plans, pl)
+	}
+	out = append(out, sh)
 	seq := uh
 	seq.Name = "two-ws+ws-real-tokens-user-hosts-one-after-the-other"
 	seq.RoundRobin = false
@@ -301,7 +313,7 @@ func c07(env *Env, rep *Report) {
 			if sc.Gw.Hosts != nil {
 				gwc = sc.Gw
 			}
-			r := RunConc(ConcScenario{Name: "alone", Plans: []TunnelPlan{p}, Gw: gwc, RealCookie: sc.RealCookie, Segmented: sc.Segmented, PostRead: sc.PostRead, IdleTimeout: sc.IdleTimeout}, nil, false)
+			r := RunConc(ConcScenario{Name: "alone", Plans: []TunnelPlan{p}, Gw: gwc, RealCookie: sc.RealCookie, Enrich: sc.Enrich, Segmented: sc.Segmented, PostRead: sc.PostRead, IdleTimeout: sc.IdleTimeout}, nil, false)
 			alone = append(alone, c07Obs(r.Tunnels[0]))
 			// the reference observation must itself be a working tunnel: the gateway process has served other
 			// tunnels before this one (earlier scenarios, the other tunnel's reference run), and none of
